@@ -210,6 +210,10 @@ func checkC05(c *Check) {
 		}
 	}
 	checkCRLLiterals(c, pg, "O-C05.3")
+	// "no unknown critical extension at entry level": the entry-extension rules of the scan
+	// (O-C10.2 exemption source, O-C10.5 every extension of a matching entry examined and
+	// either the invalidity date or not critical) are necessary for C05 as well
+	c.floor("entry-level extension rules (shared with C10)", 4, shareRules(c, checkC10, []string{"O-C10.5", "O-C10.2"}, "O-C05.4", "entry level: "))
 }
 
 func shortCRL(k string, t crlTerms) string {
